@@ -58,6 +58,8 @@ def main():
     try:
         rc, out = sh(['git', '-C', wt, 'apply', patch])
         if rc != 0:
+            rc, out = sh(['git', '-C', wt, 'apply', '--3way', patch])
+        if rc != 0:
             print('PATCH DOES NOT APPLY', out)
             return 2
         rc, out = sh([PY, 'setup.py', '-q', 'build_ext', '--inplace', '--force'], cwd=wt)
